@@ -2,7 +2,8 @@
    what the implementation was observed to do, checked against the model. *)
 From Coq Require Import String List NArith ZArith Bool.
 From J5V.lib Require Import Outcome Corr Json.
-From J5V.model Require Import CodecTypes CodecDecScalar CodecDec CodecDecQuery CodecDecTree.
+From J5V.model Require Import CodecTypes CodecDecScalar CodecDec CodecDecQuery CodecDecTree CodecDecTime CodecDecCommute.
+From J5V.lib Require Decimal.
 Import ListNotations.
 Local Open Scope N_scope.
 
@@ -33,7 +34,17 @@ Inductive deccase :=
    one of the orders *)
 | CQuery (e : env) (root : bytes) (kvs : list (bytes * list bytes))
          (ft : list (bytes * (option N * option N))) (tmt : list (bytes * (Z * Z))) (dt : list (bytes * (bytes * Z)))
-         (obs : dec_obs).
+         (obs : dec_obs)
+(* time.Parse(time.RFC3339, s): (t.Unix(), t.Nanosecond()), or None when it returns an error *)
+| CTime (s : bytes) (r : option (Z * Z))
+(* decimal.NewFromString(s): (d.String(), d.Exponent()), or None when it returns an error; the text
+   is only compared when the exponent is within the decoder's bound (writing it out is what the
+   bound avoids) *)
+| CDecimal (s : bytes) (r : option (bytes * Z))
+(* an environment of the run (dumped from the real reflector): well-formed, and satisfying the schema
+   conditions of the exactness (env_separate) and member-reordering (env_commute) theorems; checked once
+   per environment, the decode cases refer to the same definitions *)
+| CEnv (e : env).
 
 Fixpoint insert_all {A} (x : A) (l : list A) : list (list A) :=
   match l with
@@ -54,12 +65,39 @@ Definition obs_matches (o : outcome msg) (obs : dec_obs) : bool :=
   | _, _ => false
   end.
 
+Definition time_eqb (a b : option (Z * Z)) : bool :=
+  match a, b with
+  | Some (x, y), Some (x', y') => (x =? x')%Z && (y =? y')%Z
+  | None, None => true
+  | _, _ => false
+  end.
+
+(* every successful time.Parse of the case is what the model of time.Parse computes *)
+Definition time_table_ok (tmt : list (bytes * (Z * Z))) : bool :=
+  forallb (fun sr => time_eqb (go_time_parse (fst sr)) (Some (snd sr))) tmt.
+
+(* lib/Decimal.v (enc's model of shopspring/decimal) against one observation *)
+Definition decimal_obs_ok (s : bytes) (r : option (bytes * Z)) : bool :=
+  match Decimal.dec_parse s, r with
+  | None, None => true
+  | Some (m, e), Some (c, ex) =>
+      (e =? ex)%Z && (if (Z.abs ex <=? max_decimal_exponent)%Z then bytes_eqb c (Decimal.dec_print m e) else true)
+  | _, _ => false
+  end.
+
+(* every successful decimal.NewFromString of the case is what the model computes *)
+Definition decimal_table_ok (dt : list (bytes * (bytes * Z))) : bool :=
+  forallb (fun sr => decimal_obs_ok (fst sr) (Some (snd sr))) dt.
+
 Definition dec_check (c : deccase) : bool :=
   match c with
   | CLex doc toks me =>
       let '(ts, me') := lex doc in tokens_eqb ts toks && Bool.eqb me me'
   | CDec e root doc ft tmt dt obs =>
-      env_wf e && env_separate e && obs_matches (decode_bytes (orc_of ft tmt dt) e root doc) obs
+      env_wf e && time_table_ok tmt && decimal_table_ok dt && obs_matches (decode_bytes (orc_of ft tmt dt) e root doc) obs
   | CQuery e root kvs ft tmt dt obs =>
-      env_wf e && existsb (fun p => obs_matches (decode_query (orc_of ft tmt dt) e root p) obs) (perms kvs)
+      env_wf e && time_table_ok tmt && decimal_table_ok dt && existsb (fun p => obs_matches (decode_query (orc_of ft tmt dt) e root p) obs) (perms kvs)
+  | CTime s r => time_eqb (go_time_parse s) r
+  | CDecimal s r => decimal_obs_ok s r
+  | CEnv e => env_wf e && env_separate e && env_commute e
   end.
